@@ -5,6 +5,6 @@ package jbig2
 // Only compiled with the build tag "verif": access for the verification
 // harness, no behaviour of its own.
 
-func VerifWorkLimit(rawLen int64) int64            { return workLimit(rawLen) }
-func VerifCheckBitmapSize(width, height int) error { return checkBitmapSize(width, height) }
-func VerifCheckedMul(a, b int) (int, error)        { return checkedMul(a, b) }
+func VerifTrWorkLimit(rawLen int64) int64            { return workLimit(rawLen) }
+func VerifTrCheckBitmapSize(width, height int) error { return checkBitmapSize(width, height) }
+func VerifTrCheckedMul(a, b int) (int, error)        { return checkedMul(a, b) }
